@@ -34,6 +34,7 @@ type Dialer struct {
 	Conns []*netsim.ScriptConn // to be handed out
 	Dials int
 	Errs  map[int]error // dial #i fails
+	made  []network.Conn
 }
 
 var ErrNoScript = errors.New("netsim: dial beyond the script")
@@ -49,7 +50,9 @@ func (d *Dialer) DialConnection(n, address string, timeout time.Duration, tlsCon
 	if i >= len(d.Conns) {
 		return nil, ErrNoScript
 	}
-	return netsim.Wrap(d.Conns[i], 0), nil
+	nc := netsim.Wrap(d.Conns[i], 0)
+	d.made = append(d.made, nc)
+	return nc, nil
 }
 
 func (d *Dialer) DialTimeout(n, address string, timeout time.Duration, tlsConfig *tls.Config) (net.Conn, error) {
@@ -80,6 +83,12 @@ func New(mod func(o *http1.ClientOptions)) *Client {
 func (c *Client) Reset(conns ...*netsim.ScriptConn) {
 	c.HC.CloseIdleConnections()
 	c.D.mu.Lock()
+	// the connections of the previous execution are closed and no longer referenced by the client:
+	// give their buffers back now instead of waiting for finalizers
+	for _, nc := range c.D.made {
+		netsim.Release(nc)
+	}
+	c.D.made = c.D.made[:0]
 	c.D.Conns = conns
 	c.D.Dials = 0
 	c.D.Errs = nil
